@@ -46,6 +46,9 @@ TECHNIQUE = TECHNIQUE + "; encapsulation inventory on rustc's effective visibili
 def run(ctx, report):
     _run_rules(ctx, report)
     from .. import shared as _S
+    for config in ctx.configs:
+        if ctx.parallel(config):
+            report.guard("C11.POOL", _S.chaining, ctx, report, "C11.POOL", ctx.facts(config), config, [('with_pool', 'add_pool')])
     report.guard("C11.CONFIGS", _S.configurations, ctx, report, "C11.CONFIGS")
     for config in ctx.configs:
         report.guard("C11.ENCAPSULATED", _S.encapsulated, ctx, report, "C11.ENCAPSULATED", ctx.facts(config), config, "C11")
